@@ -23,6 +23,7 @@ send stream is the output of that invocation. Frame order agreement between the 
 sibling rule, re-evaluated here. Content integrity on the way: nothing in anemo::network /
 anemo::middleware calls a mutating Request/Response method (classified from the method signatures) or
 writes a header field, except on a message the library itself has just created.
+One layer out: Network::rpc only forwards to NetworkInner::rpc, and the router hands the handler the request it received (C16.1 re-evaluated).
 """
 TRUSTED = ["QUIC stream reliability/ordering under datagram loss, reordering, duplication (quinn)", "tower ServiceExt::oneshot calls the service once"]
 NOT_DECIDED = ["behaviour under datagram loss/reordering/duplication (inside quinn)", "interleavings of concurrent handlers (they share no mutable state by the ownership rules above)",
